@@ -1,0 +1,6 @@
+//go:build !verif
+
+package bondmachine
+
+// verifYield is a verification hook (build tag "verif"); without the tag it is a no-op.
+func verifYield(procId int) {}
